@@ -132,6 +132,10 @@ func runC03(c *Ctx) {
 	c18Precedence(c)
 	c18Pattern(c)
 	c18Table(c)
+	// "the next hop" includes its transport: a hop named with transport=tcp is not sent a datagram (shared with C02)
+	c02HopTransport(c, "destination")
+	// "one backend of the service": the resolver callbacks create the backends from what they captured per address
+	ruleNoLoopCapture(c, "destination", "the backends of every host name are created with the port or protocol of the address configured last - requests for the service go to an address that is not a configured backend")
 	c18NextHopPort(c)
 	// the host table behind "resolves to" (shared with C13)
 	c13AliasTable(c)
